@@ -316,11 +316,10 @@ class MultiVector:
         if not isinstance(indices, tuple):
             indices = (indices,)
 
-        if isinstance(self.values(), (tuple, list)):
-            for self_values, other_value in zip(self.values(), values):
-                self_values[indices] = other_value
-        else:
-            self.values()[(slice(None), *indices)] = values
+        # Blade by blade, also for an array of values: each blade gets its own coefficient, broadcast over the
+        # addressed entries (assigning the sequence at once would broadcast it along the blades instead).
+        for self_values, other_value in zip(self.values(), values):
+            self_values[indices] = other_value
 
     def __getattr__(self, basis_blade):
         # TODO: if this first check is not true, raise hell instead?
